@@ -49,10 +49,11 @@ Definition str_of_Z (z : Z) : str :=
   | Zneg p => 45 :: str_of_N (Npos p)
   end.
 
-(* repr(float) in positional notation: the harness encodes a float whose repr is [-]ddd.ddd as
-   VFloat (digits without the dot) (10^k), k = number of fractional digits.  A float whose repr has an
-   exponent is encoded with its exact decimal value and a NEGATIVE denominator (numerator negated):
-   equal as a fraction (val_eqb cross-multiplies), but its text is not modelled *)
+(* repr(float).  The harness encodes a float by the exact decimal value of its repr, as a fraction
+   n / 10^k (any such fraction of the value will do).  repr prints the shortest digit string that
+   identifies the float -- these are the significant digits of n -- positionally when the decimal
+   exponent e satisfies -4 <= e < 16 (always with a fractional part, "2.0"), else as d[.ddd]e+XX /
+   d[.ddd]e-XX with at least two exponent digits (float_repr_style "short") *)
 Fixpoint pow10k (fuel : nat) (d : N) : option nat :=
   match fuel with
   | O => None
@@ -63,14 +64,29 @@ Fixpoint pow10k (fuel : nat) (d : N) : option nat :=
 Definition str_of_float (n d : Z) : res str :=
   match d with
   | Zpos dp =>
-      match pow10k 40 (Npos dp) with
-      | Some (S k) =>
-          let a := Z.abs_N n in
-          let ip := str_of_N (a / Npos dp) in
-          let fp := str_of_N (a mod Npos dp) in
-          let fp' := repeat 48 (S k - length fp) ++ fp in
-          Ret ((if Z.ltb n 0 then [45] else []) ++ ip ++ [46] ++ fp')
-      | _ => Raise Unmodelled
+      match pow10k 400 (Npos dp) with
+      | Some k =>
+          if Z.eqb n 0 then Ret [48; 46; 48] else
+          let digits := str_of_N (Z.abs_N n) in
+          let m := rstrip digits [48] in                            (* significant digits *)
+          let e := (Z.of_nat (length digits) - 1 - Z.of_nat k)%Z in   (* decimal exponent *)
+          let sign := if Z.ltb n 0 then [45] else [] in
+          if Z.leb (-4) e && Z.ltb e 16 then
+            if Z.leb 0 e then
+              let w := S (Z.to_nat e) in
+              let ip := firstn w m ++ repeat 48 (w - length m) in
+              let fp := skipn w m in
+              Ret (sign ++ ip ++ [46] ++ (match fp with [] => [48] | _ => fp end))
+            else Ret (sign ++ [48; 46] ++ repeat 48 (Z.to_nat (- e - 1)) ++ m)
+          else
+            let ed := str_of_N (Z.abs_N e) in
+            let ed' := match ed with [_] => 48 :: ed | _ => ed end in
+            Ret (sign ++ (match m with
+                          | [] => []
+                          | [c] => [c]
+                          | c :: r => c :: 46 :: r
+                          end) ++ [101] ++ (if Z.ltb e 0 then [45] else [43]) ++ ed')
+      | None => Raise Unmodelled
       end
   | _ => Raise Unmodelled
   end.
